@@ -179,7 +179,15 @@ func checkC10Bind(c *Ctx, n int) {
 			}
 			// (only while a field still takes the word: beyond the fields such a word is a command)
 			lastIsSlice := reflectKindOfArg(real, args[len(args)-1]) == reflect.Slice
-			if len(subNames) > 0 && r.Intn(4) == 0 && (j < len(args) || lastIsSlice) {
+			// (... and a field of strings: "t" is a word, a command name and a spelling of true)
+			recv := ""
+			if j < len(args) {
+				recv = real.fields[args[j].Name].code
+			} else if lastIsSlice {
+				recv = real.fields[args[len(args)-1].Name].code
+			}
+			stringly := recv == "str" || recv == "c0" || recv == "Lstr" || recv == "Lc0"
+			if len(subNames) > 0 && r.Intn(4) == 0 && (j < len(args) || lastIsSlice) && stringly {
 				words[j] = subNames[r.Intn(len(subNames))]
 			}
 			// after the terminator anything is a word, option-looking ones included
